@@ -1368,12 +1368,13 @@ package mocrelay
 // C12: the WebSocket session hands exactly the valid, authentic frames to the handler
 
 //@ func ParseClientMsg
-//@   serves C12
-//@   trusted the decoder is the subject of C10; here it is a function of the frame text
-//@   pure
-//@   ensures isnil(err) == !parseFails(b)
-//@   ensures isnil(err) ==> (msg == parsedMsg(b) && !isnil(msg))
+//@   serves C10 C12
+//@   writes nothing
+//@   ensures isnil(err) ==> !isnil(msg)
 //@   ensures !isnil(err) ==> isnil(msg)
+//@   ensures[C10] isnil(err) ==> (typeis(msg, *ClientEventMsg) || typeis(msg, *ClientReqMsg) || typeis(msg, *ClientCloseMsg) || typeis(msg, *ClientAuthMsg) || typeis(msg, *ClientCountMsg))
+//@   promises isnil(err) == !parseFails(b)
+//@   promises isnil(err) ==> msg == parsedMsg(b)
 
 //@ func NewServerNoticeMsg
 //@   serves C12
@@ -1555,3 +1556,128 @@ package mocrelay
 //@     invariant held(h.c.mu) == 0
 //@     invariant len(g(addlog, h.c)) == len(old(g(addlog, h.c))) + i
 //@     invariant forall(j, 0, len(g(addlog, h.c)), g(addlog, h.c)[j] == ite(j < len(old(g(addlog, h.c))), old(g(addlog, h.c))[j], events[j - len(old(g(addlog, h.c)))]))
+
+// ---------------------------------------------------------------------------------------------
+// C10: decoders never panic and fill what they return
+
+//@ func ClientEventMsg.UnmarshalJSON
+//@   serves C10
+//@   requires msg != nil
+//@   requires callerfresh(msg)
+
+//@ func ClientReqMsg.UnmarshalJSON
+//@   serves C10
+//@   requires msg != nil
+//@   requires callerfresh(msg)
+//@   ensures[C10] (isnil(result) && !seqeq(b, nullJSON)) ==> forall(j, 0, len(msg.ReqFilters), !seqeq(jsondecoded([]json.RawMessage, b)[j+2], nullJSON))
+//@   ensures[C10] (isnil(result) && !seqeq(b, nullJSON)) ==> (len(msg.ReqFilters) >= 1 && forall(j, 0, len(msg.ReqFilters), msg.ReqFilters[j] != nil))
+//@   loop 1
+//@     invariant 0 <= i && len(ret.ReqFilters) == len(elems) - 2 && len(elems) >= 3 && forall(j, 0, i, ret.ReqFilters[j] != nil)
+//@     invariant[C10] elems == jsondecoded([]json.RawMessage, b) && forall(j, 0, i, !seqeq(elems[j+2], nullJSON))
+
+//@ func ClientCloseMsg.UnmarshalJSON
+//@   serves C10
+//@   requires msg != nil
+//@   requires callerfresh(msg)
+
+//@ func ClientAuthMsg.UnmarshalJSON
+//@   serves C10
+//@   requires msg != nil
+//@   requires callerfresh(msg)
+
+//@ func ClientCountMsg.UnmarshalJSON
+//@   serves C10
+//@   requires msg != nil
+//@   requires callerfresh(msg)
+//@   ensures[C10] (isnil(result) && !seqeq(b, nullJSON)) ==> forall(j, 0, len(msg.ReqFilters), !seqeq(jsondecoded([]json.RawMessage, b)[j+2], nullJSON))
+//@   ensures[C10] (isnil(result) && !seqeq(b, nullJSON)) ==> (len(msg.ReqFilters) >= 1 && forall(j, 0, len(msg.ReqFilters), msg.ReqFilters[j] != nil))
+//@   loop 1
+//@     invariant 0 <= i && len(ret.ReqFilters) == len(elems) - 2 && len(elems) >= 3 && forall(j, 0, i, ret.ReqFilters[j] != nil)
+//@     invariant[C10] elems == jsondecoded([]json.RawMessage, b) && forall(j, 0, i, !seqeq(elems[j+2], nullJSON))
+
+//@ func ReqFilter.UnmarshalJSON
+//@   serves C10
+//@   requires fil != nil
+//@   requires callerfresh(fil)
+//@   writes fields(fil)
+//@   loop 1
+//@     lwrites nothing
+//@     invariant ret.Tags == nil || lfresh(ret.Tags)
+//@   loop 2
+//@     lwrites nothing
+//@     invariant len(ret.IDs) == lold(len(ret.IDs))
+//@     invariant ret.Tags == lold(ret.Tags)
+//@   loop 3
+//@     lwrites nothing
+//@     invariant len(ret.Authors) == lold(len(ret.Authors))
+//@     invariant ret.Tags == lold(ret.Tags)
+//@   loop 4
+//@     lwrites nothing
+//@     invariant len(kinds) == len(numKinds)
+//@   loop 5
+//@     lwrites nothing
+//@     invariant len(vs) == lold(len(vs))
+
+//@ func anySliceAs
+//@   serves C10
+//@   opt inst.T=string
+//@   writes nothing
+//@   ensures result1 ==> len(result0) == len(sli)
+//@   loop 1
+//@     invariant len(ret) == len(sli)
+
+//@ func toPtr
+//@   serves C10
+//@   opt inst.T=int64
+//@   writes nothing
+//@   ensures result != nil && fresh(result) && *result == v
+
+//@ func ServerEOSEMsg.UnmarshalJSON
+//@   serves C10
+//@   requires msg != nil
+//@   requires callerfresh(msg)
+
+//@ func ServerEventMsg.UnmarshalJSON
+//@   serves C10
+//@   requires msg != nil
+//@   requires callerfresh(msg)
+
+//@ func ServerNoticeMsg.UnmarshalJSON
+//@   serves C10
+//@   requires msg != nil
+//@   requires callerfresh(msg)
+
+//@ func ServerOKMsg.UnmarshalJSON
+//@   serves C10
+//@   requires msg != nil
+//@   requires callerfresh(msg)
+
+//@ func ServerAuthMsg.UnmarshalJSON
+//@   serves C10
+//@   requires msg != nil
+//@   requires callerfresh(msg)
+
+//@ func ServerCountMsg.UnmarshalJSON
+//@   serves C10
+//@   requires msg != nil
+//@   requires callerfresh(msg)
+
+//@ func ServerClosedMsg.UnmarshalJSON
+//@   serves C10
+//@   requires msg != nil
+//@   requires callerfresh(msg)
+
+//@ func Event.UnmarshalJSON
+//@   serves C10
+//@   opt merge=off
+//@   requires ev != nil
+//@   requires callerfresh(ev)
+//@   writes fields(ev)
+//@   ensures[C10] isnil(result) ==> ev.Tags != nil
+//@   loop 1 as i
+//@     lwrites nothing
+//@     invariant len(ret.Tags) == len(slisli) && ret.Tags != nil
+//@   loop 2
+//@     lwrites nothing
+//@     invariant len(ret.Tags) == len(slisli) && ret.Tags != nil && 0 <= i && i < len(slisli) && len(ret.Tags[i]) == lold(len(ret.Tags[i]))
+
